@@ -85,6 +85,28 @@ Proof.
   - intros [H|H]; subst o; reflexivity.
 Qed.
 
+(* 3a. the bloom filter entry points since the repairs of leveldb/filter/bloom.go: for NO argument class may
+       NewBloomFilter, NewGenerator, Add or Contains panic or allocate hugely, and Generate may not panic for any
+       bitsPerKey (negative, zero, huge): only a nil Buffer is a documented misuse, and a huge bitsPerKey is the size
+       the caller asks for (at most the ceiling of 2^32-8 bits = 512 MiB: outcome class 4 next to "returns") *)
+Lemma api_bloom_must_return : forall c,
+  outcome_allowed "filter.NewBloomFilter" c oc_panic = false /\ outcome_allowed "filter.NewBloomFilter" c oc_alloc = false /\
+  outcome_allowed "filter.Filter.Contains" c oc_panic = false /\ outcome_allowed "filter.Filter.Contains" c oc_alloc = false /\
+  outcome_allowed "filter.FilterGenerator.Add" c oc_panic = false /\
+  (c <> "required argument nil" -> outcome_allowed "filter.FilterGenerator.Generate" c oc_panic = false) /\
+  (c <> "required argument nil" -> c <> "n huge" -> outcome_allowed "filter.FilterGenerator.Generate" c oc_alloc = false).
+Proof.
+  intros c. repeat split; try reflexivity.
+  - intros H1. unfold outcome_allowed, allowed_mask.
+    change (lookup_row api_totality_table "filter.FilterGenerator.Generate") with (Some [("required argument nil", 7); ("n huge", 19)]).
+    cbn [lookup_exc]. destruct (String.eqb_spec "required argument nil" c) as [E|_]; [congruence|].
+    destruct (String.eqb "n huge" c); reflexivity.
+  - intros H1 H2. unfold outcome_allowed, allowed_mask.
+    change (lookup_row api_totality_table "filter.FilterGenerator.Generate") with (Some [("required argument nil", 7); ("n huge", 19)]).
+    cbn [lookup_exc]. destruct (String.eqb_spec "required argument nil" c) as [E|_]; [congruence|].
+    destruct (String.eqb_spec "n huge" c) as [E|_]; [congruence|reflexivity].
+Qed.
+
 (* 4. an entry point without a row allows nothing: every observation of it is a mismatch *)
 Lemma api_unknown_entry_rejected : forall e c o,
   lookup_row api_totality_table e = None -> outcome_allowed e c o = false.
